@@ -13,9 +13,12 @@ def free_port():
 
 class Server:
     def __init__(self, root, threads=4, lane="rel", env=None, args=None, trace=False, strace=False, config_file=None,
-                 port=None, ip="127.0.0.1", use_default_args=True):
+                 port=None, ip="127.0.0.1", use_default_args=True, mixed_app=False):
+        """mixed_app: instead of the shipped binary, the harness runs the same accept loop (Server::run) and pool with an
+        application that fails on demand (target contains __panic / __panic_long / __panic_any / __err / __slow)"""
         self.root, self.threads, self.lane = root, threads, lane
-        self.binary = build.binary(lane)
+        self.mixed_app = mixed_app
+        self.binary = build.harness(lane) if mixed_app else build.binary(lane)
         self.dir = core.scratch("srv-")
         self.port = port or free_port()
         self.ip = ip
@@ -23,11 +26,17 @@ class Server:
         self.err_path = os.path.join(self.dir, "stderr.log")
         self.strace_path = os.path.join(self.dir, "strace.log") if strace else None
         e = {k: v for k, v in os.environ.items() if not k.startswith("RWS_CONFIG_")}
+        # symbolised backtraces of concurrent panics are serialised by std and take 0.1 - 1 s each: they would turn
+        # "a worker is printing" into "a worker is stuck"; the 'panicked at' line itself is always printed
+        e["RUST_BACKTRACE"] = "0"
         if trace:
             e["RWS_VERIF_TRACE"] = "1"
         if env:
             e.update(env)
         argv = [self.binary]
+        if mixed_app:
+            argv += ["srv", ip, str(self.port), str(threads)]
+            use_default_args = False
         if use_default_args:
             argv += ["--ip=%s" % ip, "--port=%d" % self.port, "--thread-count=%d" % threads]
         argv += list(args or [])
@@ -115,10 +124,9 @@ class Server:
 
     def hook_events(self):
         ev = []
-        for ln in self.stderr_text().splitlines():
-            m = re.match(r"VERIF-EVENT (\d+) (\w+) (\d+)", ln)
-            if m:
-                ev.append((int(m.group(1)), m.group(2), int(m.group(3))))
+        # a trace line is written with one write call, but it may start in the middle of another thread's panic message
+        for m in re.finditer(r"VERIF-EVENT (\d+) (\w+) (\d+)\n", self.stderr_text()):
+            ev.append((int(m.group(1)), m.group(2), int(m.group(3))))
         ev.sort()
         return ev
 
